@@ -89,6 +89,13 @@ def _run_function(c, seen):
     rs = numpy.random.RandomState(seed)
     X = U.unique_rows(rs, n, d)
     y = _target_values(ch, rs, name, n)
+    tiny = name in ("log1p", "expm1") and ch.boolean("w", 0.5, "tiny")
+    if tiny:
+        # numpy.log1p / numpy.expm1 exist for targets near zero, where the
+        # naive formulas lose their digits: the round trip stays tight there
+        k = max(1, n // 3)
+        y[:k] = numpy.array([1e-12, -3e-11, 2e-9, 1e-15, -1e-7, 5e-6, 1e-10, -2e-13])[numpy.arange(k) % 8]
+        c.probe("targets_near_zero")
     with_nan = ch.boolean("w", 0.3, "nan")
     c.scenario.update({"clause": "function-name", "fct": name, "n": n, "d": d, "nan": with_nan, "data_seed": seed})
     c.signature = ["function", name, with_nan, n // 4, d]
@@ -127,7 +134,7 @@ def _run_function(c, seen):
         return
     X3, y3 = r
     c.log.ev("result", "fct", name, C.ahash(numpy.asarray(y3)))
-    if not numpy.allclose(y3, yy, rtol=1e-9, atol=1e-12, equal_nan=True):
+    if not numpy.allclose(y3, yy, rtol=1e-9, atol=(0.0 if tiny else 1e-12), equal_nan=True):
         diff = numpy.abs(numpy.asarray(y3, dtype=float) - yy)
         diff = numpy.where(numpy.isnan(diff) & ~numpy.isnan(yy), numpy.inf, diff)
         i = int(numpy.argmax(numpy.nan_to_num(diff, nan=-1.0, posinf=1e308)))
@@ -169,7 +176,10 @@ def _run_function(c, seen):
     valid = numpy.ones(len(inner), dtype=bool) if lo is None else inner > lo + 1e-6
     want = finv(inner[valid])
     c.log.ev("result", "reg", C.ahash(numpy.asarray(p)))
-    if not numpy.allclose(numpy.asarray(p)[valid], want, rtol=1e-9, atol=1e-12, equal_nan=True):
+    if tiny:
+        # the regressor's own predictions may be anywhere; compare relatively
+        pass
+    if not numpy.allclose(numpy.asarray(p)[valid], want, rtol=1e-9, atol=(1e-300 if tiny else 1e-12), equal_nan=True):
         _viol(c, seen, "regressor-inverse", (name,), "predict is not the inverse of %s applied to the inner regressor's prediction: %r vs %r" % (name, numpy.asarray(p)[valid][:3].tolist(), want[:3].tolist()))
 
 
@@ -344,6 +354,43 @@ def _run_permutation(c, seen, tier):
         c.scenario["permutations"] = "%d adversarial draws" % draws
         for _ in range(draws):
             _check_permutation(c, seen, X, yn if with_nan else y, labels, None, learner, Xq, "drawn")
+    # ---- one classifier object fitted twice, with a query in between: the
+    #      second fit draws another permutation; nothing of the first may remain
+    if k <= kmax_enum and k >= 3:
+        perms = list(itertools.permutations(range(k)))
+        pa = perms[ch.draw("r", len(perms), "refit-perm-a")]
+        pb = perms[ch.draw("r", len(perms), "refit-perm-b")]
+        clf, tol = _make_clf(learner)
+        plain, _ = _make_clf(learner)
+        tt = TransformedTargetClassifier2(classifier=clf, transformer="permute")
+        yy2 = y
+        c.entropy.perm_hook = lambda n, p=list(pa): p if n == k else None
+        ok, r = U.sut(c, "ttc.fit(first)", tt.fit, X, yy2)
+        if ok:
+            U.sut(c, "ttc.predict(first)", tt.predict, Xq)
+            U.sut(c, "ttc.predict_proba(first)", tt.predict_proba, Xq)
+            try:
+                tt.classes_
+            except Exception:  # noqa: BLE001
+                pass
+            c.entropy.perm_hook = lambda n, p=list(pb): p if n == k else None
+            ok, r = U.sut(c, "ttc.fit(second)", tt.fit, X, yy2)
+            ok2, p2 = U.sut(c, "ttc.predict(second)", tt.predict, Xq)
+            okp, _ = U.sut(c, "plain.fit", plain.fit, X, yy2)
+            c.probe("classifier_refitted_with_another_permutation")
+            if ok and ok2 and okp:
+                want = plain.predict(Xq)
+                pw0 = numpy.sort(plain.predict_proba(Xq), axis=1)
+                decided = pw0[:, -1] - pw0[:, -2] > 1e-9
+                if [str(a) for a in numpy.asarray(p2)[decided].tolist()] != [str(a) for a in want[decided].tolist()]:
+                    _viol(
+                        c,
+                        seen,
+                        "equivariance",
+                        ("predict", learner, "after-refit"),
+                        "after fit / predict / fit with another permutation (%r then %r) the classifier no longer agrees with the plain classifier: %r vs %r" % (pa, pb, numpy.asarray(p2).tolist()[:8], want.tolist()[:8]),
+                    )
+        c.entropy.perm_hook = None
     # documented seed argument of the transformer: sampled
     t = PermutationReciprocalTransformer(random_state=ch.integer("w", 0, 50, "rs"))
     c.entropy.perm_hook = None
